@@ -310,6 +310,23 @@ def validate(module, cfg, trace, work, nchunks=None, timeout=900, dfs=False, xmx
 
 
 # --------------------------------------------------------------------------- findings / evidence / verdict
+def tlaps(module, work, timeout=1500, threads=8):
+    """Run the TLA+ proof system on spec/<module>.tla; returns dict(ok, proved, total, wall, out).  The fingerprint cache lives
+    in the work directory, so every run re-proves everything."""
+    t0 = time.time()
+    cache = os.path.join(work, "tlacache")
+    cmd = ["timeout", str(timeout), "tlapm", "--threads", str(threads), "--cleanfp", "--cache-dir", cache,
+           "-I", "/opt/veriftools/tla/CommunityModules", os.path.join(SPEC, module + ".tla")]
+    p = subprocess.run(cmd, cwd=SPEC, stdout=subprocess.PIPE, stderr=subprocess.STDOUT, text=True)
+    out = p.stdout
+    m = re.search(r"All (\d+) obligations? proved", out)
+    if m:
+        return dict(ok=True, proved=int(m.group(1)), total=int(m.group(1)), wall=time.time() - t0, out=out)
+    m = re.search(r"(\d+)/(\d+) obligations failed", out)
+    return dict(ok=False, proved=(int(m.group(2)) - int(m.group(1))) if m else 0, total=int(m.group(2)) if m else 0,
+                wall=time.time() - t0, out=out)
+
+
 def load_known():
     p = os.path.join(ROOT, "known_findings.json")
     if not os.path.exists(p):
